@@ -1,3 +1,4 @@
+import EsbuildModel.Impl.MapRangeReview
 import EsbuildModel.Lemmas.Determinism
 /-!
 C08 — builds are deterministic.  Two pieces of the mechanism are proved here for every input:
@@ -77,5 +78,19 @@ theorem serializer_runs_in_index_order (n : Nat) (sched : List Nat) :
   have := hg.1
   rw [Ser.run_length] at this
   simpa [Ser.init] using this
+
+
+/-! ## No unreviewed order-sensitive map iteration (regenerated fact)
+
+Go randomises the iteration order of maps. `Gen/MapRanges.lean` is regenerated on every run from the type-checked
+source of the linker, bundler, api, graph, resolver, printers and renamer: every `for … range <map>` loop, the
+slices its body appends to, and whether those slices are sorted later in the same function. -/
+open EsbuildModel.Gen.MapRanges EsbuildModel.MapRangeReview in
+/-- Every map iteration in the current source either only feeds slices that are sorted afterwards, or is one of
+the sites reviewed as order-insensitive (Impl/MapRangeReview.lean gives the reason for each). A new map
+iteration, or a sort that disappears after one (seeded change C08-m2), makes this proof fail. -/
+theorem every_map_iteration_is_sorted_or_reviewed :
+    ∀ s ∈ sites, s.sorted = true ∨ (s.pkg, s.fn, s.expr) ∈ reviewed.map keyOf := by
+  decide +kernel
 
 end EsbuildModel.Det
